@@ -37,3 +37,21 @@ Qed.
 
 Lemma QcS_lt0_le0 (a : T QcS) : lt0 a -> le0 a.
 Proof. rewrite QcS_le0, QcS_lt0. apply Qclt_le_weak. Qed.
+
+(* the full ordered-ring interface of AmgOrder.v *)
+From Amgcl Require Import AmgOrder.
+Lemma QcS_ordered : ordered QcS.
+Proof.
+  constructor.
+  - intro x. change (@sltb QcS) with qc_ltb. destruct (qc_ltb x x) eqn:E; [|reflexivity].
+    apply qc_ltb_lt in E. exfalso. exact (Qclt_not_eq _ _ E eq_refl).
+  - intros x y z H1 H2. apply qc_ltb_lt. apply qc_ltb_lt in H1, H2. exact (Qclt_trans _ _ _ H1 H2).
+  - intros x y H1 H2. change (@sltb QcS) with qc_ltb in *. apply Qcle_antisym; apply Qcnot_lt_le; intro L;
+      apply qc_ltb_lt in L; congruence.
+  - intros x y z H. apply qc_ltb_lt. apply qc_ltb_lt in H. change (sadd x z) with (x + z)%Qc.
+    change (sadd y z) with (y + z)%Qc. unfold Qclt in *.
+    change (this (x + z)%Qc) with (Qred (this x + this z)). change (this (y + z)%Qc) with (Qred (this y + this z)).
+    rewrite !Qred_correct. apply Qplus_lt_le_compat; [exact H|apply Qle_refl].
+  - intros x y z Hz H. apply qc_ltb_lt. apply qc_ltb_lt in Hz, H.
+    apply Qcmult_lt_compat_r; assumption.
+Qed.
